@@ -25,8 +25,8 @@ vars == <<ps, hist, ncfg, nparse>>
 
 \* families c15p / c16p: the same histories on PasetoParser (which delegates to a GenericParser and
 \* always carries the default exp / nbf validators)
-Base == IF Family = "c15p" THEN "c15" ELSE IF Family = "c16p" THEN "c16" ELSE IF Family = "c05p" THEN "c05" ELSE Family
-Layer == IF Family \in {"c11", "c11t", "c15p", "c16p", "c05p"} THEN "prelude" ELSE "generic"
+Base == IF Family \in {"c15p", "c15pc"} THEN "c15" ELSE IF Family = "c16p" THEN "c16" ELSE IF Family = "c05p" THEN "c05" ELSE Family
+Layer == IF Family \in {"c11", "c11t", "c15p", "c15pc", "c16p", "c05p"} THEN "prelude" ELSE "generic"
 K2 == IF Family = "c15p" THEN "iat" ELSE "ca"
 Pr == <<4, "local">>
 
@@ -80,6 +80,8 @@ Op4(op, k, v, t) == [op |-> op, k |-> k, v |-> v, t |-> t]
 CfgOps ==
   CASE Family = "c11t" -> {Op4("tick", "", "", 0)}
     [] Family = "c15p" -> {Op4("check", k, v, 0) : k \in {"iss", "iat"}, v \in {"v1", "v2"}}
+    \* PasetoParser::check_claim with a custom claim (c15p has the registered iss / iat)
+    [] Family = "c15pc" -> {Op4("check", k, v, 0) : k \in {"iss", "ca"}, v \in {"v1", "v2"}}
     [] Family = "c16p" -> {Op4("validate", k, kind, 0) : k \in {"ca", "cb"}, kind \in {"accept", "reject", "magic"}}
                            \cup {Op4("check", k, "v1", 0) : k \in {"ca", "cb"}}
                            \cup {Op4("footer", "", "f1", 0)}
